@@ -136,3 +136,22 @@ def get_name(prop="C10", key_fn=None):
     c.ensures("counters_stay_positive", positive)
     c.allowed_raises = set()
     return c
+
+
+# ------------------------------------------------------------------ anchors
+QUOTE = z3.Function("URL_QUOTE", z3.StringSort(), z3.StringSort())      # urllib.parse.quote: injective (bounded lemma), result free of '#'
+IDENT_OF = z3.Function("IDENT_OF_ENTITY", z3.IntSort(), z3.StringSort())
+
+
+def anchor(prop="C10"):
+    """FortranBase.anchor: '<obj>-<quote(ident)>' - an injective function of (obj, ident) because quote is injective and obj (a fixed class-derived word) has no '-'"""
+    c = base(Contract("ford.sourceform", "FortranBase.anchor", prop))
+    c.fields.update({"obj": "str"})
+    c.param("self", TRef("FortranBase"))
+    c.props["ident"] = lambda eng, path, obj: SStr(IDENT_OF(obj.t))
+    c.calls["quote"] = lambda eng, path, e, args, recv: SStr(QUOTE(eng.to_str(path, args[0])))
+    c.assumed.append("urllib.parse.quote is an injective pure function (bounded lemma C10.Bd.lemma.quote_injective); self.ident is the NameSelector identifier (get_name contract)")
+    c.ensures("kind_word_dash_quoted_identifier",
+              lambda v0, res, v1: v1._e.to_str(v1._p, res) == z3.Concat(sel(H(v0, "obj"), v0.self), z3.StringVal("-"), QUOTE(IDENT_OF(v0.self))))
+    c.no_raise = True
+    return c
